@@ -95,6 +95,13 @@ CHECKS["C17"] = (
     "DESIGN.md section 3, C17",
 )
 
+CHECKS["C04"] = (
+    "fuzzing with a crash/work-bound oracle: structured hostile-value generation, near-valid mutation, token soups (+ coverage-guided libFuzzer in the thorough tier)",
+    "Every public operation (parse, print, reparse, normalize, schedule_at, state, next_change, range iteration) is run under catch_unwind on sentences with hostile values, mutated sentences and token soups, in contexts over all IANA zones, extreme coordinates and interval-size bounds, at instants over the whole chrono range; bounded work is measured deterministically as day schedules per call (hook H1).",
+    "Trusted: hook H1 counts work faithfully. Sampled search; a panic behind a shape no generator reaches stays undetected. Debug assertions and overflow checks are ON in the harness build.",
+    "DESIGN.md section 3, C04",
+)
+
 NOT_YET = {}
 
 def main():
